@@ -203,7 +203,14 @@ var floatLits = []string{
 
 func (g *docGen) number() {
 	g.mark(siteNumber)
-	switch g.c.Pick("numk", 4, 3, 3, 3) {
+	switch g.c.Pick("numk", 4, 3, 3, 3, 2) {
+	case 4: // integer-valued floats and overflowing integers between 2^53 and 1e21: 17..21 significant digits
+		nd := 16 + g.c.Intn("bfd", 6)
+		g.b.WriteByte(byte('1' + g.c.Intn("bf0", 9)))
+		for i := 1; i < nd; i++ {
+			g.b.WriteByte(byte('0' + g.c.Intn("bfdig", 10)))
+		}
+		g.b.WriteString([]string{".0", "e0", "E+0", ".5", "", "", ".0e0"}[g.c.Intn("bfsuf", 7)])
 	case 0: // small integer
 		g.b.WriteString(strconv.Itoa(g.c.Intn("smallint", 2000) - 1000))
 	case 1:
